@@ -14,7 +14,8 @@ RULE = ("Hypothesis draws a strictly convex model with a manufactured optimum x*
         "quartic terms; equality / inequality rows, ball constraint and bounds active or not; minimise f or "
         "maximise -f; variables whose natural order differs from declaration order), renders it into API syntax, "
         "and picks method in {auto, SLSQP, trust-constr, L-BFGS-B (no general constraints)} and x0 in {default, "
-        "explicit near, explicit far}.  Layer 1 (wiring): the fun/jac/hess/constraint callables, bounds, method "
+        "explicit near, explicit far}, optionally with the solve() keywords tol, maxiter, use_hessian (which must reach SciPy "
+        "unchanged).  Layer 1 (wiring): the fun/jac/hess/constraint callables, bounds, method "
         "and x0 captured at the minimize seam must equal hand-written NumPy closures derived from the drawn data "
         "at 3 points.  Layer 2 (outcome): raw scipy.optimize.minimize is run on the hand-written closures with the "
         "same method and the captured x0; if it converges (success, feasible, gap_raw <= 1e-2(1+|f*|)) optyx must "
@@ -40,7 +41,11 @@ def cases(draw):
     x0kind = draw(st.sampled_from(["default", "default", "near", "far"]))
     off = [draw(st.sampled_from([-0.5, 0.25, 0.5])) for _ in range(n)]
     pts = [[draw(st.integers(-8, 8)) / 4.0 for _ in range(n)] for _ in range(3)]
-    return {"model": model, "method": method, "x0kind": x0kind, "off": off, "points": pts}
+    # documented keyword arguments of solve(): they must arrive at SciPy unchanged
+    opts = {"tol": draw(st.sampled_from([None, None, 1e-10, 1e-7])),
+            "maxiter": draw(st.sampled_from([None, None, None, 400, 400, 2])),
+            "use_hessian": draw(st.sampled_from([True, True, False]))}
+    return {"model": model, "method": method, "x0kind": x0kind, "off": off, "points": pts, "opts": opts}
 
 
 def strategy(tier):
@@ -71,6 +76,14 @@ def check(case):
     if case["x0kind"] != "default":
         scale = 1.0 if case["x0kind"] == "near" else 4.0
         kw["x0"] = o.xstar + scale * np.array(case["off"])
+    opts = case.get("opts") or {}
+    if opts.get("tol") is not None:
+        kw["tol"] = opts["tol"]
+    if opts.get("maxiter") is not None:
+        kw["maxiter"] = opts["maxiter"]
+    if opts.get("use_hessian") is False:
+        kw["use_hessian"] = False
+    classes += [f"kw:{k}" for k in sorted(kw) if k != "x0"]
     with quiet():
         try:
             P, b, built = models.build_problem(model)
@@ -97,6 +110,15 @@ def check(case):
         x0c = np.asarray(call.get("x0"), dtype=float)
         if "x0" in kw and not np.array_equal(x0c, kw["x0"]):
             return Result.violation("wiring-x0", f"passed x0={kw['x0'].tolist()}, SciPy got {x0c.tolist()}; {desc}", classes)
+        if call.get("tol") != kw.get("tol"):
+            return Result.violation("wiring-tol", f"solve(tol={kw.get('tol')!r}) but SciPy got tol={call.get('tol')!r}; {desc}", classes)
+        got_maxiter = (call.get("options") or {}).get("maxiter")
+        if got_maxiter != kw.get("maxiter"):
+            return Result.violation("wiring-maxiter", f"solve(maxiter={kw.get('maxiter')!r}) but SciPy got options={call.get('options')!r}; {desc}", classes)
+        if kw.get("use_hessian") is False and call.get("hess") is not None:
+            return Result.violation("wiring-use_hessian", f"use_hessian=False but a Hessian callable was passed to {used}; {desc}", classes)
+        if kw.get("use_hessian", True) and used == "trust-constr" and call.get("hess") is None:
+            return Result.violation("wiring-hessian-missing", f"trust-constr was not given the Hessian although use_hessian is on; {desc}", classes)
         bnds = call.get("bounds")
         want_b = o.scipy_bounds()
         if bnds is not None:
